@@ -5,7 +5,8 @@
   kf.py fixed <property> <commit> <replay.json|-> "<what>"   # also copies the replay into regress/
 """
 import json, sys, os, shutil
-P = "/verif/known_findings.json"
+P = os.environ.get("KF_FILE", "/verif/known_findings.json")
+if not os.path.exists(P): json.dump({"findings": []}, open(P, "w"))
 d = json.load(open(P))
 cmd = sys.argv[1]
 def wit(path):
